@@ -1,4 +1,5 @@
 import collections.abc
+import keyword
 from collections.abc import Mapping, Set
 from contextlib import AbstractContextManager, contextmanager, nullcontext
 from dataclasses import dataclass, replace
@@ -327,7 +328,10 @@ class BuiltinModelLoaderGen(ModelLoaderGen):
                     continue
 
                 value = state.v_field(field)
-                if param.kind == ParamKind.KW_ONLY or has_skipped_params:
+                if (param.kind == ParamKind.KW_ONLY or has_skipped_params) and keyword.iskeyword(param.name):
+                    # e.g. a key of TypedDict("T", {"class": int}) can not be written as a keyword argument
+                    constructor_builder(f"**{{{param.name!r}: {value}}},")
+                elif param.kind == ParamKind.KW_ONLY or has_skipped_params:
                     constructor_builder(f"{param.name}={value},")
                 elif param.kind == ParamKind.POS_ONLY and has_skipped_params:
                     raise ValueError(
